@@ -468,6 +468,10 @@ fn one_line_per_key(id: &str, pid: &str, extra: &str, fs: Vec<Finding>, out: &mu
 pub fn c01(id: &str, f: &Forest, d: &Dec, comp: &str, out: &mut Vec<String>) {
     match d {
         Dec::Dom(dom) => one_line_per_key(id, "C01", &format!("comp={comp} "), compare_roundtrip(f, &f.roots, dom), out),
+        // a planted type mismatch (option `hostile`: a value whose type is not the property's declared type, e.g. a non-UTF-8
+        // BinaryString in a Tags property) is outside C01's quantifier, like an encode failure on such a case (plain_case): the
+        // writer coerces the bytes into the declared wire type and the reader's validation of that type may reject them
+        Dec::Err(k, _) if f.opt("hostile").is_some() && (*k == "invalid-data" || *k == "type-mismatch") => {}
         Dec::Err(k, m) => {
             let key = if m.contains("should be Color3, but it was Color3uint8") { "color3uint8-unknown-property".to_string() } else { format!("decode-{k}") };
             out.push(format!("{id} C01 {key} comp={comp} the written file does not read back: {}", cut(m)))
